@@ -64,6 +64,9 @@ Engine/KPK.vos Engine/KPK.vok Engine/KPK.required_vos: Engine/KPK.v Base/Geom.vo
 Engine/KPKRank.vo Engine/KPKRank.glob Engine/KPKRank.v.beautified Engine/KPKRank.required_vo: Engine/KPKRank.v 
 Engine/KPKRank.vio: Engine/KPKRank.v 
 Engine/KPKRank.vos Engine/KPKRank.vok Engine/KPKRank.required_vos: Engine/KPKRank.v 
+Engine/KeyScratch.vo Engine/KeyScratch.glob Engine/KeyScratch.v.beautified Engine/KeyScratch.required_vo: Engine/KeyScratch.v Engine/PositionRep.vo Engine/RepProofs.vo Engine/RepRoundTrip.vo Base/NIter.vo
+Engine/KeyScratch.vio: Engine/KeyScratch.v Engine/PositionRep.vio Engine/RepProofs.vio Engine/RepRoundTrip.vio Base/NIter.vio
+Engine/KeyScratch.vos Engine/KeyScratch.vok Engine/KeyScratch.required_vos: Engine/KeyScratch.v Engine/PositionRep.vos Engine/RepProofs.vos Engine/RepRoundTrip.vos Base/NIter.vos
 Engine/Magic.vo Engine/Magic.glob Engine/Magic.v.beautified Engine/Magic.required_vo: Engine/Magic.v Base/Geom.vo
 Engine/Magic.vio: Engine/Magic.v Base/Geom.vio
 Engine/Magic.vos Engine/Magic.vok Engine/Magic.required_vos: Engine/Magic.v Base/Geom.vos
